@@ -155,6 +155,8 @@ SRefs == { Own("n"), Own("k"), Own("s"), Own("b"), Own("K"), Own("nope"),
            Idx(Fld(VarR("@A"), "fz"), NumA("0")) }
 SArrs == { Own("xs"), Own("fx"), Own("n"), Own("nope"), Fld(VarR("@A"), "xs"), Fld(Own("m"), "n"), Own("ms") }
 SCtx(r) == { Bn(">", r, NumA("0")), Bn("=", r, StrA("$s")), Un("not", r),
+             Bn(">", Fld(Idx(Own("ms"), r), "n"), NumA("0")), Bn("=", Fld(Fld(Idx(Own("mf"), r), "deep"), "z"), Own("n")),   \* a field selected from an indexed element
+             Bn(">", Idx(Own("xs"), Fld(Idx(Own("ms"), r), "n")), NumA("0")),
              Idx(Own("bs"), r),        \* the whole predicate is one accessor (bs: bool[]) and the reference sits in its index
              Bn(">", Idx(Own("xs"), r), NumA("0")),
              Bn("in", Own("n"), Rng("[", NumA("0"), r, "]")), Bn("in", Own("n"), SetOf(<<r, NumA("1")>>)),
